@@ -307,7 +307,7 @@ func c09Validate(c *runCtx) {
 			if k > 0 {
 				mode = pickOne(r, []string{"ok", "ok", "ok", "decrease", "drop", "newclock", "swap"})
 				if clean {
-					mode = pickOne(r, []string{"ok", "ok", "decrease", "newclock"})
+					mode = pickOne(r, []string{"ok", "ok", "ok", "decrease", "newclock", "swap", "drop"})
 				}
 			}
 			v := randRawVersion(r, prev, mode)
